@@ -70,6 +70,8 @@ def run(c):
     def confirm(idx, t):
         return confirm_by_tlc(c, drv, cases[idx], "Trace_C10", t[2], context=cases[max(0, idx - 2):idx])
     c.triage(mism, classify, confirm)
+    def _c(e): e["inp_after"] = [(e["inp_after"][0] + 1) % 256] + e["inp_after"][1:]; return e
+    binding_selftest(c, "Trace_C10", events, lambda x: x.startswith('{"op":"PureD"') and '"inp_after":[' in x and '"inp_after":[]' not in x, _c, "the input slice logged as modified after decoding")
     c.cov["notes_octets"] = sum(1 for _, t in mism if t[0] == "NOTE")
     c.cov["rule"] = "cases = purity experiments on the real code (decode: snapshot/scribble/double run; encode: pre-filled buffer/double run); distinct non-trivial = distinct inputs (decode) and distinct message values (encode)"
     for i in (0, len(events) // 2, len(events) - 1):
